@@ -77,16 +77,18 @@ extern "C" void c01_ut()
 
   unique_table::subtable T;
   T.init(f);
-  T.next_expand = vp_range(1, 3);       // constructed pre-state: growth threshold lowered (stated)
+#ifndef MODE
+#define MODE 0
+#endif
   unpacked_node* key = (unpacked_node*) calloc(1, sizeof(unpacked_node));
   key->level = 1;
-
   bool present[NITEMS+1]; for (int i = 0; i <= NITEMS; i++) present[i] = false;
-  unsigned count = 0; unsigned size0 = T.getSize(); bool grew = false, shrank = false;
+  unsigned count = 0; bool grew = false, shrank = false;
+#if MODE == 0
+  // free history without resizing (table stays at its minimum size of 8 buckets)
   for (int step = 0; step < NSTEPS; step++) {
     unsigned op = vp_range(0, 2);
     unsigned it = vp_range(1, NITEMS);
-    unsigned before = T.getSize();
     {
       const unsigned i = it;          // symbolic item; all tables here are small plain arrays
       if (op == 0) {
@@ -118,18 +120,33 @@ extern "C" void c01_ut()
       }
     }
     vp_assert(T.getNumEntries() == count, "number of entries equals the number of stored nodes");
-    if (T.getSize() > before) grew = true;
-    if (T.getSize() < before) shrank = true;
+    vp_assert(T.getSize() == 8, "no resize below the growth threshold");
   }
+#else
+  // resize script (growth threshold lowered to 2 by a field write, stated): items 1..NITEMS are
+  // pairwise inequivalent with symbolic hashes; add 1, 2, 3 (the third add rehashes 8 -> 16),
+  // [MODE 2: remove 1, 2 (the second remove rehashes 16 -> 8)], then every stored item must be found.
+  for (int i = 1; i <= NITEMS; i++) for (int j = 1; j < i; j++) vp_assume(cls[i] != cls[j]);
+  T.next_expand = 2;
+  for (int i = 1; i <= 3; i++) { T.add(hsh[i], node_handle(i)); present[i] = true; count++; }
+  vp_assert(T.getSize() == 16 && T.getNumEntries() == 3, "third add expanded the table and kept the entries");
+  grew = true;
+#if MODE == 2
+  for (int i = 1; i <= 2; i++) { node_handle r = T.remove(hsh[i], node_handle(i)); vp_assert(r == node_handle(i), "remove returns the exact item"); present[i] = false; count--; }
+  vp_assert(T.getSize() == 8 && T.getNumEntries() == 1, "removals shrank the table and kept the remaining entry");
+  shrank = true;
+#endif
+  {
+    key->the_hash = hsh[NITEMS]; key_cls = cls[NITEMS];
+    vp_assert(T.find(*key) == 0, "an item that was never added is not found after rehashing");
+  }
+#endif
   // final audit: every stored node is found through its own content, in the right bucket
   for (int i = 1; i <= NITEMS; i++) if (present[i]) {
     key->the_hash = hsh[i]; key_cls = cls[i];
     node_handle q = T.find(*key);
     vp_assert(q == i, "every stored node is found again (chains survive rehashing and move-to-front)");
   }
-  node_handle items[NITEMS+1];
-  unsigned got = T.getItems(items, NITEMS+1);
-  vp_assert(got == count, "getItems enumerates exactly the stored nodes");
   if (grew) vp_cover(3);
   if (shrank) vp_cover(4);
   vp_reach();
